@@ -63,6 +63,7 @@ if ROUND == 5:
     MISSED = {"C02J": "the receiver's arrays are compared before / after every product (first run: TLC integer overflow = machinery failure, not a verdict)",
               "C03I": "sparse operand holding halves against an integer-typed dense operand (the other half added by the harness)",
               "C03J": "scalar products scaled to 2^-80 (small products are entries like any other)",
+              "C04I": "the right-hand side of an assignment is compared before / after (it may be assigned again)",
               "C05J": "a matrix-shaped sparse receiver so that the scipy converter is applied to a live object",
               "C06I": "the matricized form compared with that of the sorted operand (isequal and stored arrays)",
               "C06J": "scalar products that underflow to exactly zero",
